@@ -134,7 +134,7 @@ CHECK = {
     "property": "C25",
     "props": "Props/C25.v",
     "theorems": ["c25_stack_eq_expand", "c25_terminates", "c25_depth", "c25_context_scoping",
-                 "c25_iter_stack_eq_expand", "c25_iter_depth", "c25_lines_are_iter", "c25_relative_paths", "c25_full_stack_eq_expand", "c25_full_total_valid",
+                 "c25_iter_stack_eq_expand", "c25_iter_depth", "c25_lines_are_iter", "c25_relative_paths", "c25_full_stack_eq_expand", "c25_full_any_fuel", "c25_full_total_valid",
                  "c25_full_include_boundary", "c25_full_include_directory", "c25_has_parent_iff"],
     "allowed_axioms": [],
     "suites": [{
